@@ -289,7 +289,22 @@ def ser_set_transmission_file(ctx, state):
             I.raise_('OSError')
         I.ctx.ghost['fileops'] = I.ctx.glist('fileops') + [('open', args[0], args[1])]
         return I.ctx.alloc(FileObj(args[0], args[1]))
-    outcome, r, I = run_ser(ctx, ser, 'setTransmissionData', [(chunk, first, last)], externals={'open': opener, 'atomicReplace': atomic, 'atomic_replace.atomicReplace': atomic})
+    def os_kill(I, args, kw):
+        if I.ctx.decide(FreshBool('killFails'), 'kill-raises'):
+            I.raise_('OSError')          # e.g. the child is already gone
+        I.ctx.ghost['fileops'] = I.ctx.glist('fileops') + [('kill', args[0], args[1] if len(args) > 1 else None)]
+        return None
+
+    def os_waitpid(I, args, kw):
+        if I.ctx.decide(FreshBool('waitpidFails'), 'waitpid-raises'):
+            I.raise_('OSError')
+        I.ctx.ghost['fileops'] = I.ctx.glist('fileops') + [('waitpid', args[0], args[1] if len(args) > 1 else None)]
+        return (args[0], 9)
+    pid0 = pid
+    ctx.track('own dump child pid (0 = none, > 0 = forked child writing <dump>.tmp)', pid0)
+    outcome, r, I = run_ser(ctx, ser, 'setTransmissionData', [(chunk, first, last)],
+                            externals={'open': opener, 'atomicReplace': atomic, 'atomic_replace.atomicReplace': atomic, 'os.kill': os_kill, 'os.waitpid': os_waitpid,
+                                       'signal.SIGKILL': 9, 'signal.SIGTERM': 15})
     ctx.prove(outcome == 'ok', 'C09:O9.2.set-file.no-exception-escapes', info=outcome)
     if outcome != 'ok':
         return
@@ -311,6 +326,26 @@ def ser_set_transmission_file(ctx, state):
         ctx.prove(last, 'C09:O9.5.rename-only-on-last-chunk')
     ctx.prove(Implies(res, len(rn) == 1) if len(rn) != 1 else True, 'C09+C01:O9.5.true-only-after-rename')
     ctx.prove(Implies(res, last), 'C09+C01:O9.5.true-only-on-last-chunk')
+    # O9.8: an own dump that a forked child is still writing is older than the snapshot being installed.  If it were allowed to finish, its rename
+    # would put the older dump over the newer one, and a restart would then replace the journal (which starts after the newer snapshot) by the
+    # older dump's entries - acknowledged entries would be gone (C06).  So before the dump path is replaced the child is stopped for good.
+    pid1 = ctx.cell(ser).fields[SF('pid')]
+    if rn and ctx.decide(pid0 > 0, 'own-dump-child-running'):
+        k = ops.index(rn[0])
+        stopped = [o for o in ops[:k] if o[0] in ('kill', 'waitpid')]
+        tried = any(o[0] == 'kill' and o[1] is pid0 for o in stopped) or _path_has(ctx, 'kill-raises')
+        ctx.prove(tried and Eq(pid1, 0), 'C09+C06:O9.8.own-dump-child-stopped-before-a-newer-snapshot-replaces-the-dump-file', info=repr([o[:2] for o in ops]))
+        if any(o[0] == 'kill' for o in stopped) and not _path_has(ctx, 'waitpid-raises'):
+            ctx.prove(any(o[0] == 'waitpid' and o[1] is pid0 and o[2] in (0, None) for o in stopped), 'C09+C06:O9.8.the-stopped-child-is-reaped-synchronously', info=repr(stopped))
+    ctx.prove(Implies(pid0 <= 0, Eq(pid1, pid0)), 'C09:O9.8.no-child-no-change-of-the-dump-state')
+    for o in ops:
+        if o[0] == 'kill':
+            ctx.prove(And(o[1] is pid0, pid0 > 0), 'C09+C06:O9.8.only-the-own-dump-child-is-ever-signalled', info=repr(o[:2]))
+
+
+def _path_has(ctx, label):
+    """True iff the current path took the branch `label`"""
+    return any(t.startswith(label) and t.endswith('=T') for t in ctx.trace)
 
 
 def _mut_tmp_is_dump(fn):
